@@ -41,7 +41,8 @@ func encodeToString(candidate *CandidateNode, prefs encoderPreferences) (string,
 	}
 
 	printer := NewPrinter(encoder, NewSinglePrinterWriter(bufio.NewWriter(&output)))
-	err := printer.PrintResults(candidate.AsList())
+	// print a copy: the printer explodes aliases in place for encoders that cannot represent them
+	err := printer.PrintResults(candidate.Copy().AsList())
 	return output.String(), err
 }
 
